@@ -187,6 +187,9 @@ Definition step (l : lab) (s : cl) : cl :=
         set_cbq (set_handler (set_run s1 true true) (handlerOn s1) true) []
       else s
   | Start =>
+      (* DefaultClientDispatcher.Start waits for the message pump of the stopped session to have left (repair F38):
+         a Start issued while that pump is still around returns later, i.e. it is this label AFTER PumpStop; while
+         [started] still holds the label is a second Start on a running endpoint and is not modelled (no-op) *)
       if negb (started s) then
         let s1 := emit (set_conn s true) EStart in
         let s2 := set_run s1 true false in
